@@ -19,16 +19,16 @@ import (
 
 func cases(tier string) int {
 	if tier == "thorough" {
-		return 5000
+		return 20000
 	}
-	return 250
+	return 1000
 }
 
 func cliEvery(tier string) int {
 	if tier == "thorough" {
-		return 25
+		return 50
 	}
-	return 12
+	return 25
 }
 
 var Check = &run.Check{
